@@ -39,7 +39,7 @@ def cell_line(rng, cell, segs, seglen, name):
                       G.pos_str(b2, seglen[b]), G.pos_str(e2, seglen[b]), "*"])
 
 
-def gen(streams, tier, i):
+def gen(streams, tier, i, over=None):
     cfg = streams.get("config")
     scn = None
     dr = streams.get("document")
@@ -48,6 +48,8 @@ def gen(streams, tier, i):
     version = cfg.choice(["gfa2", "gfa2", "gfa1"])
     k.update({"max_seg": cfg.choice([2, 3, 4]), "max_edge": cfg.choice([4, 8]), "max_link": cfg.choice([4, 8]),
               "max_cont": 3, "max_gap": 3, "etypes": ["any", "dovetail", "cont", "internal"], "p_self": cfg.choice([0.1, 0.4])})
+    if over:
+        k.update(over)
     doc = G.gen_doc(dr, k, version)
     lines = list(doc["lines"])
     cell = None
